@@ -733,6 +733,8 @@ pub struct Gen {
     appdrop: bool,
     /// duplicates-while-in-flight only: an id is re-sent only while its handler is alive and unfinished
     dups: bool,
+    /// response-backlog schedules: far deadlines only, the sink rarely opens, handlers complete eagerly
+    backlog: bool,
 }
 
 impl Gen {
@@ -761,9 +763,9 @@ impl Gen {
                 rng.gen_range(0..self.ids)
             };
             let dls = [0i64, 1, 2, 3, 5, 8, 10_000, 10_000, 10_000];
-            let dl = dls[rng.gen_range(0..dls.len())];
+            let dl = if self.backlog { 10_000 } else { dls[rng.gen_range(0..dls.len())] };
             let dl = if dl < 10_000 && rng.gen_bool(0.7) { now + dl } else { dl };
-            if rng.gen_range(0..12) == 0 {
+            if !self.backlog && rng.gen_range(0..12) == 0 {
                 ch.push((14, json!({"a":"Req","id":id,"dl":now + dl.min(10),"wrap":true})));
             } else {
                 ch.push((14, json!({"a":"Req","id":id,"dl":dl})));
@@ -788,7 +790,7 @@ impl Gen {
                 ch.push((10, json!({"a":"Poll","t":format!("h{}", h)})));
             }
             if !st.ctl.borrow().complete.contains(h) {
-                ch.push((6, json!({"a":"Complete","h":h})));
+                ch.push((if self.backlog { 12 } else { 6 }, json!({"a":"Complete","h":h})));
             }
             if self.appdrop {
                 ch.push((1, json!({"a":"DropHandler","h":h})));
@@ -800,7 +802,7 @@ impl Gen {
         }
         match self.mode.as_str() {
             "coupled" => {
-                ch.push((5, json!({"a":"SinkOpen"})));
+                ch.push((if self.backlog { 1 } else { 5 }, json!({"a":"SinkOpen"})));
                 ch.push((3, json!({"a":"SinkBlock"})));
             }
             "independent" => ch.push((8, json!({"a":"SinkCredit"}))),
@@ -854,14 +856,15 @@ pub fn random_sched(i: u64, rng: &mut StdRng, a: &Args) -> Sched {
         None => [-1i64, -1, 1, 2][rng.gen_range(0..4)],
     };
     let fresh = a.opt_u64("fresh", 0) == 1 || rng.gen_bool(0.5);
+    let backlog = a.opt_u64("backlog", 0) == 1;
     let cfg = json!({"respBuf": rng.gen_range(1..=2u64), "limit": limit, "mode": mode,
-                     "cap": rng.gen_range(1..=2u64), "open": rng.gen_range(0..4) != 0,
+                     "cap": rng.gen_range(1..=2u64), "open": rng.gen_range(0..4) != 0 && !backlog,
                      "credits": rng.gen_range(0..=2u64),
                      "random": {"seed": rng.gen::<u32>(), "len": rng.gen_range(8..70u64),
                                 "reqs": rng.gen_range(1..=a.opt_u64("reqs", 5)), "ids": rng.gen_range(1..=3u64),
                                 "faults": faults, "fresh": fresh,
                                 "appdrop": a.opt_u64("appdrop", if fresh { 1 } else { 0 }) == 1 && fresh,
-                                "dups": a.opt_u64("dups", 0) == 1}});
+                                "dups": a.opt_u64("dups", 0) == 1, "backlog": backlog}});
     Sched {
         id: format!("r{}", i),
         cfg,
@@ -903,6 +906,7 @@ pub fn run_one(scn: u64, s: &Sched) -> OneResult {
             used_ids: vec![],
             appdrop: r.get("appdrop").and_then(|v| v.as_bool()).unwrap_or(false),
             dups: r.get("dups").and_then(|v| v.as_bool()).unwrap_or(false),
+            backlog: r.get("backlog").and_then(|v| v.as_bool()).unwrap_or(false),
         });
     }
     st.run_steps();
